@@ -21,7 +21,9 @@ VARIABLES objs,      \* object id -> record of fields
 Cfg == [deep  |-> [uri |-> "deep",  segs |-> <<"x", "y">>, data |-> <<"app", "scope">>, rpath |-> <<"s", "r">>, ext |-> {"m"}],
         deep2 |-> [uri |-> "deep2", segs |-> <<"x2", "y2">>, data |-> <<"app", "scope">>, rpath |-> <<"s", "r">>, ext |-> {"m"}],
         flat  |-> [uri |-> "flat",  segs |-> <<>>, data |-> <<"app">>, rpath |-> <<"flat">>, ext |-> {}],
-        miss  |-> [uri |-> "miss",  segs |-> <<>>, data |-> <<"app">>, rpath |-> <<>>, ext |-> {}]]
+        miss  |-> [uri |-> "miss",  segs |-> <<>>, data |-> <<"app">>, rpath |-> <<>>, ext |-> {}],
+        \* inside the scope but no resource of it matches: the scope's id is on the trail, the default service answers
+        smiss |-> [uri |-> "smiss", segs |-> <<"x3">>, data |-> <<"app", "scope">>, rpath |-> <<"s">>, ext |-> {}]]
 Fresh(k) == [uri |-> Cfg[k].uri, segs |-> <<>>, data |-> <<"app">>, ext |-> {}, conn |-> k, rpath |-> <<>>, matched |-> FALSE]
 (* routing + handler: pushes captures, scoped data, resource path; the handler adds its extension *)
 Routed(o, k) == [o EXCEPT !.segs = @ \o Cfg[k].segs, !.data = @ \o SubSeq(Cfg[k].data, 2, Len(Cfg[k].data)),
